@@ -1,10 +1,137 @@
-"""Calendar model (ISO weeks, replace). Filled in with the C05/C14 contracts."""
-from .engine import Unsupported
+"""ISO calendar model.
+
+isocalendar() of a day number d (days since 1970-01-01) is modelled with uninterpreted functions over the
+absolute Monday-based week number w = (d + 3) div 7:
+    iso_year(w), FW(Y) = absolute week number of ISO week 1 of ISO year Y, cal_year(d)
+and the axioms below (instantiated at the terms that occur). Every axiom is validated against CPython for all
+days 1970-01-01 .. 2200-12-31 by `validate()` (run by the checks on every run); that validates the model, it
+proves nothing about /repo.
+    A1  iso_week(d) == w - FW(iso_year(w)) + 1
+    A2  FW(iso_year(w)) <= w < FW(iso_year(w) + 1)
+    A3  52*(Y2 - Y1) <= FW(Y2) - FW(Y1) <= 53*(Y2 - Y1)            for Y1 <= Y2
+    A5  |cal_year(d) - iso_year(w)| <= 1
+    A6  Dec 28 of calendar year Y lies in ISO year Y, in its last week:  week(dec28(Y)) == FW(Y + 1) - 1
+"""
+from __future__ import annotations
+import z3
+from . import types as T
+from .types import V
+from .engine import Unsupported, to_real, real_floor
+
+ISO_YEAR = z3.Function("iso_year", z3.IntSort(), z3.IntSort())     # of absolute week
+FW = z3.Function("iso_first_week", z3.IntSort(), z3.IntSort())      # of ISO year
+CAL_YEAR = z3.Function("cal_year", z3.IntSort(), z3.IntSort())      # of day number
+DEC28 = z3.Function("dec28_day", z3.IntSort(), z3.IntSort())        # calendar year -> day number of Dec 28
 
 
-def iso_year_week(ex, days):
-    raise Unsupported("isocalendar model not loaded")
+def week_of(days):
+    return (days + 3) / 7
+
+
+def _note(ex, kind, term):
+    ex.cal_terms = getattr(ex, "cal_terms", {"weeks": [], "years": [], "days": []})
+    lst = ex.cal_terms[kind]
+    if not any(t.eq(term) for t in lst):
+        lst.append(term)
+
+
+def iso_year_week(ex, days, st=None):
+    w = week_of(days)
+    y = ISO_YEAR(w)
+    _note(ex, "weeks", w)
+    _note(ex, "years", y)
+    _note(ex, "days", days)
+    return y, w - FW(y) + 1
 
 
 def dt_replace(ex, base, node, st):
-    raise Unsupported("datetime.replace model not loaded")
+    kws = {k.arg: k.value for k in node.keywords}
+    if set(kws) == {"month", "day"}:
+        m = ex.ev(kws["month"], st)
+        d = ex.ev(kws["day"], st)
+        ms, dsv = z3.simplify(m.t), z3.simplify(d.t)
+        if z3.is_int_value(ms) and z3.is_int_value(dsv):
+            secs = real_floor(base.t)
+            days = secs / 86400
+            cy = CAL_YEAR(days)
+            _note(ex, "days", days)
+            _note(ex, "years", cy)
+            if ms.as_long() == 12 and dsv.as_long() == 28:
+                nd = DEC28(cy)
+            else:
+                # any other fixed month/day: a day of that calendar year about which nothing else is known
+                fn = z3.Function(f"day_of_{ms.as_long()}_{dsv.as_long()}", z3.IntSort(), z3.IntSort())
+                nd = fn(cy)
+            _note(ex, "days", nd)
+            return V(T.DT, [to_real(nd * 86400) + (base.t - to_real(days * 86400))])
+    if set(kws) == {"tzinfo"}:
+        return base
+    raise Unsupported("datetime.replace with these fields", node)
+
+
+def axioms(ex):
+    """Ground instances of A1-A6 at the calendar terms created during this execution."""
+    ct = getattr(ex, "cal_terms", None)
+    if not ct:
+        return []
+    out = []
+    for w in ct["weeks"]:
+        y = ISO_YEAR(w)
+        out.append(z3.And(FW(y) <= w, w < FW(y + 1)))
+    years = list(ct["years"])
+    ys = years + [y + 1 for y in years]
+    for i, a in enumerate(ys):
+        for b in ys[i + 1:]:
+            out.append(z3.Implies(a <= b, z3.And(52 * (b - a) <= FW(b) - FW(a), FW(b) - FW(a) <= 53 * (b - a))))
+            out.append(z3.Implies(b <= a, z3.And(52 * (a - b) <= FW(a) - FW(b), FW(a) - FW(b) <= 53 * (a - b))))
+    for d in ct["days"]:
+        w = week_of(d)
+        out.append(z3.And(CAL_YEAR(d) - ISO_YEAR(w) <= 1, ISO_YEAR(w) - CAL_YEAR(d) <= 1))
+    for y in years:
+        out.append(z3.And(week_of(DEC28(y)) == FW(y + 1) - 1, ISO_YEAR(week_of(DEC28(y))) == y, CAL_YEAR(DEC28(y)) == y))
+    # monotonicity of iso_year in the week number, at the pairs that occur
+    ws = ct["weeks"]
+    for i, a in enumerate(ws):
+        for b in ws[i + 1:]:
+            out.append(z3.Implies(a <= b, ISO_YEAR(a) <= ISO_YEAR(b)))
+            out.append(z3.Implies(b <= a, ISO_YEAR(b) <= ISO_YEAR(a)))
+            out.append(z3.Implies(a == b, ISO_YEAR(a) == ISO_YEAR(b)))
+    ds = ct["days"]
+    for i, a in enumerate(ds):
+        for b in ds[i + 1:]:
+            out.append(z3.Implies(a <= b, CAL_YEAR(a) <= CAL_YEAR(b)))
+            out.append(z3.Implies(b <= a, CAL_YEAR(b) <= CAL_YEAR(a)))
+    return out
+
+
+def validate(lo_year=1970, hi_year=2200):
+    """Check every axiom against CPython's datetime for each day of [lo_year, hi_year]. Returns #days checked."""
+    import datetime as dt
+    epoch = dt.date(1970, 1, 1)
+    fw = {}
+    d = dt.date(lo_year, 1, 1)
+    end = dt.date(hi_year, 12, 31)
+    n = 0
+    prev_w = None
+    while d <= end:
+        days = (d - epoch).days
+        iy, iw, iwd = d.isocalendar()
+        w = (days + 3) // 7
+        assert iwd == (days + 3) % 7 + 1 and d.weekday() == (days + 3) % 7
+        if iw == 1 and iy not in fw:
+            fw[iy] = w
+        if iy in fw:
+            assert iw == w - fw[iy] + 1, (d, iy, iw, w, fw[iy])
+            assert fw[iy] <= w
+        assert abs(d.year - iy) <= 1
+        if d.month == 12 and d.day == 28:
+            assert iy == d.year
+            nxt = dt.date(d.year + 1, 1, 4)            # Jan 4 is always in ISO week 1
+            wn = ((nxt - epoch).days + 3) // 7
+            assert w == wn - 1, (d, w, wn)
+        n += 1
+        d += dt.timedelta(days=1)
+    ys = sorted(fw)
+    for a, b in zip(ys, ys[1:]):
+        assert b == a + 1 and 52 <= fw[b] - fw[a] <= 53
+    return n
